@@ -99,6 +99,11 @@ Build(c) ==
                             IN Lay(r.st, 10, r.ret)
     [] c.g = "sub_point" -> LET r == C!SubPoint(In4(c.p[1], c.p[2], c.q[1], c.q[2]), <<W1, W2>>, <<W3, W4>>)
                             IN Lay(r.st, 10, r.ret)
+    \* operand handles: one handle for both operands, the constant identity (ZERO, ONE)
+    [] c.g = "add_same" -> LET r == C!AddPoint(In2(c.p[1], c.p[2]), <<W1, W2>>, <<W1, W2>>) IN Lay(r.st, 8, r.ret)
+    [] c.g = "add_const" -> LET r == C!AddPoint(In2(c.p[1], c.p[2]), <<W1, W2>>, <<C!ZERO, C!ONE>>) IN Lay(r.st, 8, r.ret)
+    [] c.g = "const_add" -> LET r == C!AddPoint(In2(c.p[1], c.p[2]), <<C!ZERO, C!ONE>>, <<W1, W2>>) IN Lay(r.st, 8, r.ret)
+    [] c.g = "sub_same" -> LET r == C!SubPoint(In2(c.p[1], c.p[2]), <<W1, W2>>, <<W1, W2>>) IN Lay(r.st, 8, r.ret)
     [] c.g = "neg_point" -> LET r == C!NegPoint(In2(c.p[1], c.p[2]), <<W1, W2>>) IN Lay(r.st, 8, r.ret)
     [] c.g = "select_identity" -> LET r == C!SelectIdentity(In3(c.x, c.p[1], c.p[2]), W1, <<W2, W3>>)
                                   IN Lay(r.st, 9, r.ret)
@@ -146,6 +151,9 @@ Expected(c) ==
     [] c.g = "add_point" -> C!PtAdd(c.p, c.q)
     [] c.g = "sub_point" -> C!PtAdd(c.p, C!PtNeg(c.q))
     [] c.g = "neg_point" -> C!PtNeg(c.p)
+    [] c.g = "add_same" -> C!PtAdd(c.p, c.p)
+    [] c.g \in {"add_const", "const_add"} -> c.p
+    [] c.g = "sub_same" -> <<0, 1>>
     [] c.g = "select_identity" -> IF c.x = 1 THEN c.p ELSE <<0, 1>>
     [] c.g = "mul_point" -> MulInt(c.x, c.p)
     [] c.g = "fixed" -> MulInt(c.x, c.p)
@@ -196,6 +204,7 @@ Cases ==
          {PQ("add_point", p, q) : p \in SubPts, q \in SubPts}
          \cup {PQ("sub_point", p, q) : p \in SubPts, q \in SubPts}
          \cup {PQ("neg_point", p, <<0, 1>>) : p \in SubPts}
+         \cup {PQ(g, p, <<0, 1>>) : g \in {"add_same", "add_const", "const_add", "sub_same"}, p \in SubPts}
          \cup {XP("select_identity", x, p) : x \in {0, 1, 2, P - 1}, p \in SubPts}
     [] Family = "mul_point" ->
          {XP("mul_point", x, p) : x \in AllX, p \in {Gen, <<0, 1>>}}
